@@ -358,12 +358,12 @@ func (e *env) badGet(gs *GetSpec) {
 	n := 0
 	var termErr error
 	for {
-		_, err := gc.RecvTimeout(time.Minute)
+		r, err := gc.RecvTimeout(time.Minute)
 		if err != nil {
 			termErr = err
 			break
 		}
-		n++
+		n += len(r.GetEntry()) // (entries, not messages: an empty response returns nothing)
 	}
 	if termErr != nil && termErr.Error() == "simnet: receive timed out" {
 		e.report("C12", "get-hang", "malformed Get never terminated", fmt.Sprintf("%+v: %s", *gs, e.sim.Describe()), false)
@@ -372,7 +372,7 @@ func (e *env) badGet(gs *GetSpec) {
 	if !wellFormed {
 		e.probe("malformed Get terminated cleanly")
 		if n > 0 && (gs.Unset || (!gs.All && !e.model.NIs[gs.NI])) {
-			e.report("C12", "get-bogus-data", "Get of a non-existent scope returned entries", fmt.Sprintf("%+v returned %d responses", *gs, n), false)
+			e.report("C12", "get-bogus-data", "Get of a non-existent scope returned entries", fmt.Sprintf("%+v returned %d entries", *gs, n), false)
 		}
 	}
 	simrt.AwaitQuiescence("badget")
